@@ -205,7 +205,11 @@ class Wiretap:
                     chain = R.dec_chain(data[28:], h['next'])
                 except R.DecodeError as ex:
                     return self.problem('emitted_undecodable', f'{sender}: {ex}', meta)
-                if not chain or chain[-1]['type'] != R.P_SK:
+                if not chain:
+                    # a bare header (what an endpoint without keys can answer at most): no payload is in the clear
+                    self._c('cleartext_header_only')
+                    return
+                if chain[-1]['type'] != R.P_SK:
                     self._c('cleartext_after_init')
                     self.problem('cleartext_message_after_ike_sa_init', f'{sender} emitted an unprotected {R.PNAMES.get(chain[0]["type"]) if chain else "empty"} '
                                  f'message of exchange {h["exch"]}', meta, exch=h['exch'])
